@@ -61,6 +61,15 @@ impl PanicInfo {
             .take(48)
             .map(|c| if c.is_whitespace() { '_' } else if c.is_ascii_digit() { '#' } else { c })
             .collect();
+        // numbers of different width must give the same signature
+        let mut head2 = String::new();
+        for c in head.chars() {
+            if c == '#' && head2.ends_with('#') {
+                continue;
+            }
+            head2.push(c);
+        }
+        let head = head2;
         format!("panic@{}:{}", file, head)
     }
 }
